@@ -102,22 +102,49 @@ def confirm(src, sid, prop):
 
 
 def run(sid, prop, extra):
+    """Runs the check against the tree with the seeded change.  Default: a scratch worktree of /repo's HEAD with the
+    patch applied, handed to the check through VERIF_REPO (so that several evaluations can run side by side and
+    /repo itself is never left modified); with --in-repo the patch is applied to /repo and undone straight afterwards."""
     dst = os.path.join(SEEDED, sid)
     patch = os.path.join(dst, "patch.diff")
-    rc, out = sh("git -C /repo status --porcelain --untracked-files=no")
-    if out.strip():
-        print("/repo has uncommitted changes; refusing")
-        return 2
-    rc, out = sh("git -C /repo apply %s" % patch)
+    in_repo = "--in-repo" in extra
+    extra = [e for e in extra if e != "--in-repo"]
+    env = dict(ENV)
+    wt = None
+    if in_repo:
+        rc, out = sh("git -C /repo status --porcelain --untracked-files=no")
+        if out.strip():
+            print("/repo has uncommitted changes; refusing")
+            return 2
+        rc, out = sh("git -C /repo apply %s" % patch)
+    else:
+        wt = "/tmp/seedrun_%s" % sid
+        sh("git -C /repo worktree remove --force %s" % wt)
+        shutil.rmtree(wt, ignore_errors=True)
+        rc, out = sh("git -C /repo worktree add --detach %s HEAD" % wt)
+        if rc == 0:
+            rc, out = sh("git apply %s" % patch, cwd=wt)
+            for f in ("Cargo.lock",):      # present in /repo's working tree but not tracked
+                if os.path.exists(os.path.join("/repo", f)) and not os.path.exists(os.path.join(wt, f)):
+                    shutil.copy(os.path.join("/repo", f), os.path.join(wt, f))
+            if os.path.isdir("/repo/testdata") and not os.path.exists(os.path.join(wt, "testdata")):
+                os.symlink("/repo/testdata", os.path.join(wt, "testdata"))
+        env["VERIF_REPO"] = wt
     if rc:
         print("patch does not apply:\n" + out)
+        if wt:
+            sh("git -C /repo worktree remove --force %s" % wt)
         return 2
     t0 = time.time()
     try:
-        p = subprocess.run([sys.executable, os.path.join(V, "bin", "check.py"), prop, "--no-evidence"] + extra, cwd=V, capture_output=True, text=True, env=ENV)
+        p = subprocess.run([sys.executable, os.path.join(V, "bin", "check.py"), prop, "--no-evidence"] + extra, cwd=V, capture_output=True, text=True, env=env)
         txt = p.stdout + p.stderr
     finally:
-        sh("git -C /repo checkout -- .")
+        if in_repo:
+            sh("git -C /repo checkout -- .")
+        else:
+            sh("git -C /repo worktree remove --force %s" % wt)
+            shutil.rmtree(wt, ignore_errors=True)
     tail = [l for l in txt.split("\n") if l.startswith(("VIOLATION", "KNOWN-FINDING", "INCONCLUSIVE", "[")) or "what:" in l]
     print("\n".join(tail[-12:]))
     meta_p = os.path.join(dst, "meta.json")
